@@ -14,6 +14,7 @@ case $kind in
   seed7) list=$(ls /tmp/seed7/C*-out/*/patch.diff | while read p; do d=$(dirname $p); echo "$(basename $(dirname $d) | sed 's/-out//')-7$(basename $d) $p"; done) ;;
   seed8) list=$(ls /tmp/seed8/C*-out/*/patch.diff | while read p; do d=$(dirname $p); echo "$(basename $(dirname $d) | sed 's/-out//')-8$(basename $d) $p"; done) ;;
   seed9) list=$(ls /tmp/seed9/C*-out/*/patch.diff | while read p; do d=$(dirname $p); echo "$(basename $(dirname $d) | sed 's/-out//')-9$(basename $d) $p"; done) ;;
+  seed10) list=$(ls /tmp/seed10/C*-out/*/patch.diff | while read p; do d=$(dirname $p); echo "$(basename $(dirname $d) | sed 's/-out//')-10$(basename $d) $p"; done) ;;
   rf)    list=$(ls $here/refactorings/C*/r*.diff | while read p; do echo "$(basename $(dirname $p))/$(basename $p .diff) $p"; done) ;;
   rfamb) list=$(ls $here/refactorings-ambitious/C*/r*.diff | while read p; do echo "$(basename $(dirname $p))/$(basename $p .diff) $p"; done) ;;
   *)     list=$(ls $kind/*/r*.diff $kind/r*.diff 2>/dev/null | while read p; do echo "$(basename $(dirname $p))/$(basename $p .diff) $p"; done) ;;
